@@ -1029,7 +1029,7 @@ func ruleStopClosesBroker(c *Ctx) {
 		isClose := func(n *Node) bool {
 			for _, call := range callsIn(n.Ast) {
 				if p.CalleeName(f, call) == modPath+".GRPCBroker.Close" {
-					if se, ok := ast.Unparen(call.Fun).(*ast.SelectorExpr); ok && SelField(info, se.X) == brokerF {
+					if se, ok := ast.Unparen(call.Fun).(*ast.SelectorExpr); ok && (SelField(info, se.X) == brokerF || SelField(info, p.Deref(f, se.X)) == brokerF) {
 						return true
 					}
 				}
@@ -1038,7 +1038,7 @@ func ruleStopClosesBroker(c *Ctx) {
 		}
 		cut := func(e *Edge) bool {
 			at, ok := edgeAtom(info, e)
-			return ok && at.Kind == "nil" && at.Op == token.EQL && SelField(info, at.X) == brokerF
+			return ok && at.Kind == "nil" && at.Op == token.EQL && (SelField(info, at.X) == brokerF || SelField(info, p.Deref(f, at.X)) == brokerF)
 		}
 		seen := g.Reach([]*Node{g.Entry}, isClose, cut)
 		if _, miss := seen[g.Exit]; miss {
